@@ -1,4 +1,4 @@
-//@@ unit props=C04,C06,C20
+//@@ unit props=C04,C06,C20,C14
 // Unit ods: src/ods.rs, verbatim text: get_range (the mechanism of C04) and is_empty_row; read_row (cell-repeat logic) and
 // check_for_password_protected (C20) against a ghost model of quick-xml / zip (A-xml, A-zip); get_datatype is NOT under proof.
 #![allow(unused_imports, dead_code, unused_variables, unused_mut, unused_assignments)]
@@ -1272,7 +1272,7 @@ impl From<quick_xml::events::attributes::AttrError> for OdsError { #[verifier::e
 //@@ end
 
 //@@ item src/ods.rs const MAX_COLUMNS
-//@@ fn src/ods.rs read_row props=C04 entry ret=r r4
+//@@ fn src/ods.rs read_row props=C04,C14 entry ret=r r4
 //@@ r6 1
 //@@ replace /a\.map_err\(OdsError::XmlAttr\)/ Verus does not support a datatype constructor as a function value; eta-expanded
 a.map_err(|e| -> (oe: OdsError) ensures oe is XmlAttr { OdsError::XmlAttr(e) })
@@ -1285,7 +1285,7 @@ verif_parse_repeats(reader, &a)
         //# C04.row_repeat_expansion_values
         r is Ok ==> exists|out: Seq<Data>| final(cells)@ == old(cells)@ + out
             && row_v_ok(expand_v(row_cells(old(reader).events(), old(reader).pos())), out),
-        //# C04.row_repeat_expansion_formulas
+        //# C04,C14.row_repeat_expansion_formulas
         r is Ok ==> exists|out: Seq<Seq<char>>| strs(final(formulas)@) == strs(old(formulas)@) + out
             && row_f_ok(expand_f(row_cells(old(reader).events(), old(reader).pos())), out),
         //# C06.row_within_grid_columns
